@@ -404,6 +404,12 @@ theorem step_grow (p : P) (op : Op) : Grow p (step p op).1 := by
     · split
       · split <;> exact Grow.of_eq rfl
       · exact Grow.refl p
+  | addKernelMapping a b c d =>
+    simp only [step]
+    split
+    · split <;> exact Grow.of_eq rfl
+    · exact Grow.refl p
+  | removeKernelMapping a => exact Grow.of_eq rfl
   | removeMapping a b => simp only [step]; split <;> exact Grow.of_eq rfl
   | clearMappings a => simp only [step]; split <;> exact Grow.of_eq rfl
   | string s => exact Grow.of_eq rfl
